@@ -73,7 +73,9 @@ def run_case(case):
                         viol.append({"sig": sig, "detail": detail, "case": sub})
 
                 try:
-                    c = cls(model, alpha, n_points=npts)
+                    # alpha as the user may pass it: python float, or (every third case) a numpy scalar
+                    a_in = np.float64(alpha) if (npts + n_dim) % 3 == 0 else alpha
+                    c = cls(model, a_in, n_points=npts)
                 except Exception as e:
                     bad("exception", {"type": type(e).__name__, "msg": str(e)[:200]})
                     continue
